@@ -259,6 +259,21 @@ def visible_mutations(prog, fn):
                 continue
             if fn_visible_mutation(prog, tgt):
                 out.append((c.point, 'call of %s' % tgt.name, c))
+    for st in b.stores:
+        r0 = strip(st.root)
+        # an element overwritten in place (`buffer[w] = buffer[r]` of a hand-written compaction): a visible mutation like any other
+        if r0 is not None and r0.kind == 'call' and r0.callee_name() in ('index_mut', 'get_unchecked_mut', 'get_mut') and prog.classify(r0) == 'std' and r0.args:
+            base = strip(r0.args[0])
+            while base is not None and base.kind == 'call' and base.callee_name() in ('deref_mut', 'deref', 'as_mut_slice'):
+                base = strip(base.args[0])
+            root = base
+            while root is not None and root.kind in ('ref', 'load'):
+                root = strip(root.args[0])
+            if root is not None and root.kind != 'escaped' and base is not None and base.kind in ('ref', 'load') and base.fields() and base.fields()[-1] == 'buffer':
+                out.append((st.point, 'element store', st))
+        # the cached earliest expiration raised or lowered AFTER the buffer changed: the pair (buffer, cache) is one update
+        if r0 is not None and r0.kind == 'param' and fn.self_adt in prog.list_adts and len(st.fields()) == 1 and st.fields()[0] != 'buffer':
+            out.append((st.point, 'cache store', st))
     return out
 
 
@@ -270,7 +285,7 @@ def fn_visible_mutation(prog, fn, _stack=None):
     if fn.path in _stack:
         return False
     prog._summ_cache[key] = False
-    r = bool(visible_mutations(prog, fn)) if (fn.self_adt in prog.list_adts) else False
+    r = any(m[1] != 'cache store' for m in visible_mutations(prog, fn)) if (fn.self_adt in prog.list_adts) else False      # (a purge that refreshes the cache changes nothing a caller can see)
     prog._summ_cache[key] = r
     return r
 
@@ -305,7 +320,9 @@ def check_sequence_fn(ctx, prog, fn):
         return 0
     bad = None
     for (c, kind) in ups:
-        before = [m for m in muts if m[2] is not c and reaches(b, m[0], c.point)]
+        if c.kind == 'call' and c.callee_name() == 'max_expiration':
+            continue        # the largest value of the time type: a constant of that type, not one of C18's callbacks
+        before = [m for m in muts if m[2] is not c and m[1] != 'cache store' and reaches(b, m[0], c.point)]      # (a cache lowered BEFORE user code runs is a lower bound whatever unwinds)
         after = [m for m in muts if m[2] is not c and reaches(b, c.point, m[0])]
         if before and after:
             bad = (c, kind, before[0][1], after[0][1])
